@@ -407,6 +407,13 @@ func sampleStretched(r *RNG, re *syntax.Regexp, out []byte, reps int, done *bool
 // check, window and estimate sizes).
 var thresholdProbes = []string{`^a.*b`, `^.+b`, `^(\w+) .*b`, `^[a-z]+.*x`, `^a.*`, `^.*?b`, `(?s)^a.*b`, `^a[^\n]*b`, `a.*b`, `[a-z]+.*x`, `^(?:a|b).*c`, `^x.{2,}y`}
 
+// lookbehindProbes: shapes whose match can begin right where the previous match ended and depends on the byte BEFORE that position
+// (a search resumed on a re-sliced haystack sees a text start there); run first by the enumeration / replace / relation checks.
+var lookbehindProbes = []string{"abc|cd|d|" + manyLiterals(72), "cd|abc|d|bcd|" + manyLiterals(72), `\d\d\b`, `\b[a-z]`, `\b\w`, `\B\w`, `(?m)^\w`, `\b\d{2}`, `\b[a-z]{3}`, `\b\w\b`, `(?m)^.`, `\B.`, `\b[a-z]|\d`, `(?m)^[a-z]{2}`}
+
+// lookbehindHays: words and lines for lookbehindProbes.
+var lookbehindHays = []string{"abcd", "abcd xabcd", "111", "1111 22", "hello big world", "ab cd", "1234 56", "abc\ndef", "abcdef ghi", "a1 b22 c333", "xy\nzz\n\nq"}
+
 // GenStretched returns a haystack with one loop of the pattern iterated a few thousand times (ASCII), then possibly a multi-byte
 // rune and a second sampled match; nil if the pattern has no unbounded loop.
 func GenStretched(r *RNG, re *syntax.Regexp) []byte {
